@@ -31,7 +31,9 @@ from .. import q
 from .. import x_ws as X
 from ..cfg import must_facts, explore, canon_fact, holds
 from ..model import AnalysisError
+from .. import x_wsnorm as NORM
 from ..rules import event_facts, node_calls, require_after
+from ..x_guardflow import expand_expr
 from ..mutate import mutate, remove_stmts, replace_expr, replace_stmt, parse_stmt, parse_expr
 
 TECHNIQUE = "guard-dominance and must-pass-through dataflow on the CFG, typestate per close scenario, sibling agreement of the send APIs"
@@ -322,6 +324,7 @@ def rule_echo(ck, consts):
                 e = ast.parse(txt, mode="eval").body
             except SyntaxError:
                 continue
+            e = expand_expr(ck.repo, hm, e)
             if any(q.is_call(x, "len") and x.args and q.dotted(x.args[0]) == data for x in ast.walk(e)):
                 try:
                     lens = {k for k in lens if bool(q.fold(e, {data: "x" * k})) == pol}
@@ -481,8 +484,10 @@ def rule_close_payload(ck, consts):
                     if e.args[0].value in (">H", "!H"):
                         return (("code", X.fold_in(e.args[1], env, "?")),)
                     return (("code packed as %r" % (e.args[0].value,), X.fold_in(e.args[1], env, "?")),)
-                if isinstance(e, ast.Call) and q.call_attr(e) in ("utf8", "encode") and (q.dotted(e.args[0]) if e.args else q.dotted(getattr(e.func, "value", None))) == rp:
-                    return (("reason",),)
+                if isinstance(e, ast.Call) and q.call_attr(e) in ("utf8", "encode"):
+                    src = e.args[0] if (e.args and q.call_attr(e) == "utf8") else getattr(e.func, "value", None)
+                    if src is not None and (q.dotted(src) == rp or (env.get(rp) is not None and X.fold_in(src, env, None) == env.get(rp))):
+                        return (("reason",),)
                 if isinstance(e, ast.BinOp) and isinstance(e.op, ast.Add):
                     a, b = part(e.left), part(e.right)
                     return None if a is None or b is None else a + b
@@ -597,6 +602,7 @@ def rule_closed_error(ck):
 
 
 def run(ck):
+    ck.repo = NORM.normalize(ck.repo, W, NORM.KEEP_WS)  # aliases, temporaries, 1-tuple unpacks, single-use private helpers (vt/x_wsnorm.py)
     ck.rule("C16.one-close-frame", "the close frame is written only by WebSocketProtocol13.close under `not self.server_terminated`, and server_terminated = True follows on every path")
     ck.rule("C16.no-data-after-close", "every public send API (handler/client x message/ping) hands frames to the protocol only when it exists and is not closing; the refusing branch raises WebSocketClosedError")
     ck.rule("C16.notify-once", "on_close() only behind the _on_close_called flag (set first); the receive loop notifies exactly once with the peer's code/reason and no Exception from frame processing can skip it")
